@@ -70,6 +70,11 @@ def mutants(props=None, budget=40):
     shutil.rmtree(MUT_ROOT, ignore_errors=True)
     missed = [r for r in results if r[1] != 'caught']
     print(f'mutants: {len(results) - len(missed)}/{len(results)} caught')
+    out = VERIF / 'selftest' / 'mutants_results.json'
+    prev = json.loads(out.read_text()) if out.exists() else {}
+    for name, verdict, cls in results:
+        prev[name] = {'verdict': verdict, 'caught_as': [c.split(' seed=')[0].replace('class=', '') for c in cls][:2]}
+    out.write_text(json.dumps(dict(sorted(prev.items())), indent=1))
     return 1 if missed else 0
 
 
